@@ -391,40 +391,6 @@ def action_vocabulary(repo, universe):
     return pub, internal, dynamic
 
 
-def reset_table(repo):
-    """assignments of WaterNetworkModel.reset_initial_values: {element class: {field: value text}} (+ 'WaterNetworkModel')"""
-    rs = repo.func(MODEL, "WaterNetworkModel.reset_initial_values")
-    reset = {}     # class -> {field: value text}
-    for n in rs.body:
-        if isinstance(n, ast.For) and isinstance(n.iter, ast.Call) and isinstance(n.iter.func, ast.Attribute) and n.iter.func.attr in KIND_OF_ITER:
-            if n.iter.args and isinstance(n.iter.args[0], ast.Name):
-                classes_ = RESET_KIND.get(n.iter.args[0].id, [n.iter.args[0].id])
-            else:
-                classes_ = KIND_OF_ITER[n.iter.func.attr]
-            tg = n.target.elts[-1].id if isinstance(n.target, ast.Tuple) else n.target.id
-            for s in walk(n):
-                if isinstance(s, ast.Assign):
-                    for t in s.targets:
-                        if isinstance(t, ast.Attribute) and isinstance(t.value, ast.Name) and t.value.id == tg:
-                            # an isinstance guard narrows the classes the assignment applies to
-                            cl = list(classes_)
-                            q = s
-                            while q is not None and q is not n:
-                                pq = parent(q)
-                                if isinstance(pq, ast.If) and q in pq.body and isinstance(pq.test, ast.Call) and unparse(pq.test.func) == "isinstance" \
-                                        and isinstance(pq.test.args[1], ast.Name) and unparse(pq.test.args[0]) == tg:
-                                    nm = pq.test.args[1].id
-                                    cl = [c for c in cl if c in RESET_KIND.get(nm, [nm])]
-                                q = pq
-                            for c in cl:
-                                reset.setdefault(c, {})[t.attr] = unparse(s.value)
-        elif isinstance(n, ast.Assign):
-            for t in n.targets:
-                if isinstance(t, ast.Attribute) and unparse(t.value) == "self":
-                    reset.setdefault("WaterNetworkModel", {})[t.attr] = unparse(n.value)
-    return rs, reset
-
-
 # ------------------------------------------------------------------ symbolic element instances (R-C11-1c, R-C11-4)
 class _Inst(object):
     """one element object of class `cname` with symbolic fields: fields[x] is the value stored so far, an unwritten field x reads as the symbol self.x"""
@@ -461,6 +427,7 @@ class ElemExec(SymExec):
         self.ct = ct
         self._pub = {}
         self.depth = 0
+        self.unroll_opaque = True      # `for cls in (Pipe, Pump, Valve): for .. in self.links(cls)` is unrolled
 
     def props(self, cname):
         if cname not in self._pub:
@@ -538,6 +505,40 @@ class ElemExec(SymExec):
                 return res
         return SymExec.stmt(self, s, st)
 
+    def loop(self, s, st):
+        inst = st.env.get("__inst__")
+        it = s.iter
+        if isinstance(inst, _Inst) and isinstance(it, ast.Call) and isinstance(it.func, ast.Attribute) and it.func.attr in KIND_OF_ITER \
+                and not isinstance(self.ev(it.func.value, st), _Inst):
+            kinds = list(KIND_OF_ITER[it.func.attr])
+            sel = list(it.args) + [k.value for k in it.keywords]
+            if len(sel) > 1:
+                raise ExtractError("iterator %s: unexpected arguments" % unparse(it))
+            if sel:
+                v = self.ev(sel[0], st)
+                if not isinstance(v, Opaque) or not re.match(r"^\w+$", v.text):
+                    raise ExtractError("iterator %s: element class not resolvable" % unparse(it))
+                if v.text not in self.ct.classes:
+                    raise ExtractError("iterator %s: unknown element class %s" % (unparse(it), v.text))
+                kinds = [c for c in kinds if v.text in self.ct.mro(c)]
+            if inst.cname not in kinds:
+                return [st]
+            tg = s.target
+            if isinstance(tg, ast.Tuple) and len(tg.elts) == 2 and all(isinstance(e, ast.Name) for e in tg.elts):
+                st.env[tg.elts[0].id] = Opaque(tg.elts[0].id)
+                st.env[tg.elts[1].id] = inst
+            else:
+                raise ExtractError("loop target %s over %s not understood" % (unparse(tg), unparse(it)))
+            st.loops.append((unparse(tg), unparse(it), set(st.env)))
+            outs = self.block(s.body, [st])
+            for o in outs:
+                if o.loops:
+                    o.loops.pop()
+                if o.done == "loopexit":
+                    o.done = False
+            return outs
+        return SymExec.loop(self, s, st)
+
     def assign(self, t, v, st, stmt=None):
         if isinstance(t, ast.Attribute):
             base = self.ev(t.value, st)
@@ -550,35 +551,65 @@ class ElemExec(SymExec):
         return SymExec.assign(self, t, v, st, stmt)
 
 
-def _kind_loops(fnode):
-    """top-level `for .., x in <recv>.<kind>(Cls?)` loops of a function: [(loop, target name, element classes)]"""
-    out = []
-    for n in fnode.body:
-        if isinstance(n, ast.For) and isinstance(n.iter, ast.Call) and isinstance(n.iter.func, ast.Attribute) and n.iter.func.attr in KIND_OF_ITER:
-            if n.iter.args and isinstance(n.iter.args[0], ast.Name):
-                classes_ = RESET_KIND.get(n.iter.args[0].id, [n.iter.args[0].id])
-            else:
-                classes_ = KIND_OF_ITER[n.iter.func.attr]
-            tg = n.target.elts[-1] if isinstance(n.target, ast.Tuple) else n.target
-            if isinstance(tg, ast.Name):
-                out.append((n, tg.id, list(classes_)))
-    return out
+def apply_fn(ex, fnode, inst):
+    """run a whole function (reset_initial_values, update_network_previous_values) for ONE element `inst`: a loop over `<model>.<kind>(Cls?)`
+    executes its body once with the loop variable bound to inst if inst's class is among the elements the iterator yields, and not at all
+    otherwise (ElemExec.loop), whatever the nesting / merging / order of the loops -> the final State of every non-raising path"""
+    env = {a_.arg: Opaque(a_.arg) for a_ in fnode.args.args + fnode.args.kwonlyargs}
+    env["__inst__"] = inst
+    return [o for o in ex.block(fnode.body, [State(env)]) if o.raised is None]
 
 
-def apply_loops(ex, loops, inst):
-    """run the bodies of the loops that range over inst's class on it, in order -> the instances at the end of every (non-raising) path"""
-    insts = [inst]
-    for loop, tg, classes_ in loops:
-        if inst.cname not in classes_:
-            continue
-        nxt = []
-        for i in insts:
-            st = State({tg: i})
-            for o in ex.block(loop.body, [st]):
-                if o.raised is None:
-                    nxt.append(o.env[tg])
-        insts = nxt
-    return insts
+def apply_insts(ex, fnode, inst):
+    return [o.env["__inst__"] for o in apply_fn(ex, fnode, inst)]
+
+
+class ResetEval(object):
+    """reset_initial_values executed symbolically for one pristine instance of every element class (and for the model object itself)."""
+
+    def __init__(self, repo, ct=None):
+        self.ct = ct or ClassTable(repo)
+        self.fn = repo.func(MODEL, "WaterNetworkModel.reset_initial_values")
+        self.ex = ElemExec(self.ct)
+        self.inst = {}
+        self.state = {}
+        for cn in ELEMENT_CLASSES:
+            if cn not in self.ct.classes:
+                raise AnchorError("class %s vanished" % cn)
+            outs = apply_fn(self.ex, self.fn, _Inst(cn))
+            if len(outs) != 1:
+                raise ExtractError("reset_initial_values: %d paths for a %s" % (len(outs), cn))
+            self.state[cn] = outs[0]
+            self.inst[cn] = outs[0].env["__inst__"]
+        # the model's own fields and the control loop do not depend on the element class
+        st = self.state[ELEMENT_CLASSES[0]]
+        self.model = {}
+        for e in st.stores("self."):
+            self.model[e[1][len("self."):]] = e[2]
+        self.resets_controls = any(e[1].endswith("._reset()") and any("controls()" in l for l in e[4]) for e in st.calls())
+
+    def table(self):
+        """{element class: {field: canonical value text over the instance's own fields}} (+ 'WaterNetworkModel')"""
+        out = {}
+        for cn, inst in self.inst.items():
+            if inst.fields:
+                out[cn] = {f: self.ex.text(v) for f, v in inst.fields.items()}
+            for prop, wrote, noop in inst.prop_stores:
+                out.setdefault(cn, {})[prop] = ", ".join("%s = %s" % (w, self.ex.text(inst.get(w))) for w in wrote)
+        if self.model:
+            out["WaterNetworkModel"] = {f: self.ex.text(v) for f, v in self.model.items()}
+        return out
+
+    def expected(self, cn, src):
+        """value of the expression `src` (over `x`) on a pristine instance of cn"""
+        return self.ex.ev(ast.parse(src, mode="eval").body, State({"x": _Inst(cn)}))
+
+
+def reset_table(repo, ct=None):
+    """what reset_initial_values assigns, per concrete element class: {class: {field: value text}} (+ 'WaterNetworkModel'); derived from the
+    symbolic execution of the whole function for one instance of each class, not from the shape of its loops (used by C08 too)"""
+    r = ResetEval(repo, ct)
+    return r.fn, r.table()
 
 
 def run_start_normaliser(repo):
@@ -586,7 +617,7 @@ def run_start_normaliser(repo):
     reset and construction leave): what it assigns is re-derived before a run reads it.  Decided by executing the part of run_sim before its
     main loop symbolically with sim_time bound to 0."""
     if not (repo.has_func(HYD, "update_network_previous_values") and repo.has_func(CORE, "WNTRSimulator.run_sim")):
-        return None, []
+        return None
     rs = repo.func(CORE, "WNTRSimulator.run_sim")
     prefix = []
     for st_ in rs.body:
@@ -606,24 +637,20 @@ def run_start_normaliser(repo):
     ex.MAX_PATHS = 512
     outs = [o for o in ex.block(prefix, [State({"self": Opaque("self")})]) if o.raised is None and o.done is not True]
     if outs and all(any("update_network_previous_values(" in e[1] for e in o.calls()) for o in outs):
-        fn = repo.func(HYD, "update_network_previous_values")
-        return fn, _kind_loops(fn)
-    return None, []
+        return repo.func(HYD, "update_network_previous_values")
+    return None
 
 
 def setter_reset_agreement(repo, chk, ct, D):
     """R-C11-1c and R-C11-4 (see EXPLANATION)."""
     rs = repo.func(MODEL, "WaterNetworkModel.reset_initial_values")
     ex = ElemExec(ct)
-    rloops = _kind_loops(rs)
-    nfn, nloops = run_start_normaliser(repo)
+    nfn = run_start_normaliser(repo)
     if nfn is not None:
         chk.fn(nfn)
     results = {}        # (owner, prop, R) -> [ok, classes, detail, setter node]
     for cn in ELEMENT_CLASSES:
-        if not any(cn in cl for _, _, cl in rloops):
-            continue
-        pristine = apply_loops(ex, rloops, _Inst(cn))
+        pristine = apply_insts(ex, rs, _Inst(cn))
         if len(pristine) != 1:
             raise ExtractError("reset_initial_values: %d paths for a %s" % (len(pristine), cn))
         pr = pristine[0]
@@ -682,8 +709,8 @@ def setter_reset_agreement(repo, chk, ct, D):
                 touched = {k for k in post.fields if k in inputs}
                 if not touched:
                     continue
-                for start in apply_loops(ex, nloops, copy.deepcopy(post)):
-                    for after in apply_loops(ex, rloops, copy.deepcopy(start)):
+                for start in (apply_insts(ex, nfn, copy.deepcopy(post)) if nfn is not None else [post]):
+                    for after in apply_insts(ex, rs, copy.deepcopy(start)):
                         for R, ins in sorted(pairs.items()):
                             if not (ins & touched):
                                 continue
@@ -703,7 +730,7 @@ def setter_reset_agreement(repo, chk, ct, D):
                        (pn, R, detail[2], detail[3], detail[0], ", path " + detail[1] if detail[1] else "") if detail else (pn, R, "", "", "", "")),
                    expected=detail[3] if detail else None, found=detail[2] if detail else None)
     chk.sample({"rule": "R-C11-4", "pairs_checked": ["%s.%s -> %s (%s)" % (o, p_, R, ",".join(v[1])) for (o, p_, R), v in sorted(results.items())],
-                "run_start_normaliser": [unparse(l.iter) for l, _, _ in nloops]})
+                "run_start_normaliser": nfn.name if nfn is not None else None})
     chk.floor("R-C11-1c", 10)
     chk.floor("R-C11-4", 4)
 
@@ -876,7 +903,8 @@ def run(repo, chk):
         chk.floor("R-C11-2", 2)
 
     # ---------------------------------------------------------------- R-C11-3 reset coverage
-    rs, reset = reset_table(repo)
+    rev = ResetEval(repo, ct)
+    rs, reset = rev.fn, rev.table()
     chk.fn(rs)
     chk.sample({"reset_table": {k: v for k, v in reset.items() if k in ("Junction", "Tank", "Pipe", "WaterNetworkModel")}})
     chk.extra["runtime_fields_written"] = sorted("%s.%s" % k for k in written_rt)
@@ -892,24 +920,30 @@ def run(repo, chk):
         chk.expect(fld in reset.get(k, {}), "R-C11-3", "reset_initial_values restores %s.%s (written by a run at %s)" % (k, fld, where.split(":")[0]), loc(rs),
                    "a run writes %s.%s (%s) but reset_initial_values does not assign it in the loop over %s: a second run starts from the first run's state" % (k, fld, where, k),
                    expected="%s.%s = <initial value>" % (k, fld), found=sorted(reset.get(k, {})))
-    # values
-    EXPECT = {"_user_status": ("initial_status",), "_setting": ("initial_setting",), "_internal_status": ("LinkStatus.Active",),
-              "_is_isolated": ("False",), "_leak_status": ("False",), "_flow": ("None",), "_prev_setting": ("None",),
-              "_demand": ("None",), "_leak_demand": ("None",), "_pressure": ("None",)}
-    for k, tab in sorted(reset.items()):
-        for fld, val in sorted(tab.items()):
+    # values: compared as symbolic values over the instance's own fields (the reset executed for one instance of each class), so the
+    # name of the loop variable, temporaries, merged / nested / reordered loops do not matter
+    EXPECT = {"_user_status": ("initial_status", "x.initial_status"), "_setting": ("initial_setting", "x.initial_setting"),
+              "_internal_status": ("LinkStatus.Active", "LinkStatus.Active"),
+              "_is_isolated": ("False", "False"), "_leak_status": ("False", "False"), "_flow": ("None", "None"), "_prev_setting": ("None", "None"),
+              "_demand": ("None", "None"), "_leak_demand": ("None", "None"), "_pressure": ("None", "None")}
+    for k in sorted(rev.inst):
+        inst = rev.inst[k]
+        for fld in sorted(inst.fields):
             if fld in EXPECT:
-                chk.expect(any(val.endswith(e) for e in EXPECT[fld]), "R-C11-3", "reset value of %s.%s is %s" % (k, fld, " / ".join(EXPECT[fld])), loc(rs),
-                           found=val, expected=EXPECT[fld])
-    th = reset.get("Tank", {}).get("_head", "")
-    chk.expect(sorted(x.strip() for x in th.split("+")) == ["node.elevation", "node.init_level"], "R-C11-3", "reset value of Tank._head is init_level + elevation", loc(rs), found=th)
-    chk.expect(reset.get("Tank", {}).get("_prev_head") in ("node.head", "node._head"), "R-C11-3", "reset value of Tank._prev_head is the reset head", loc(rs),
-               found=reset.get("Tank", {}).get("_prev_head"))
-    wm = reset.get("WaterNetworkModel", {})
-    chk.expect(wm.get("sim_time") in ("0.0", "0") and wm.get("_prev_sim_time") == "None", "R-C11-3", "reset sets sim_time = 0 and _prev_sim_time = None", loc(rs), found=wm)
+                want = rev.expected(k, EXPECT[fld][1])
+                chk.expect(rev.ex.same(inst.fields[fld], want), "R-C11-3", "reset value of %s.%s is %s" % (k, fld, EXPECT[fld][0]), loc(rs),
+                           found=rev.ex.text(inst.fields[fld]), expected=rev.ex.text(want))
+    tank = rev.inst["Tank"]
+    th = tank.fields.get("_head")
+    chk.expect(th is not None and rev.ex.same(th, rev.expected("Tank", "x.init_level + x.elevation")), "R-C11-3", "reset value of Tank._head is init_level + elevation",
+               loc(rs), found=rev.ex.text(th))
+    chk.expect("_prev_head" in tank.fields and th is not None and rev.ex.same(tank.fields["_prev_head"], th), "R-C11-3",
+               "reset value of Tank._prev_head is the reset head", loc(rs), found=rev.ex.text(tank.fields.get("_prev_head")))
+    wm = rev.model
+    chk.expect(wm.get("sim_time") in (0, 0.0) and wm.get("sim_time") is not False and "_prev_sim_time" in wm and wm["_prev_sim_time"] is None, "R-C11-3",
+               "reset sets sim_time = 0 and _prev_sim_time = None", loc(rs), found=reset.get("WaterNetworkModel"))
     # controls
-    resets_controls = any(isinstance(n, ast.For) and "controls()" in unparse(n.iter) and any(last_attr(c) == "_reset" for c in calls(n)) for n in rs.body)
-    chk.expect(resets_controls, "R-C11-3", "reset_initial_values calls _reset() on every control", loc(rs))
+    chk.expect(rev.resets_controls, "R-C11-3", "reset_initial_values calls _reset() on every control", loc(rs))
     for cname, c in sorted(repo.classes(CTRL).items()):
         meths = {n.name: n for n in c.body if isinstance(n, ast.FunctionDef)}
         if "evaluate" in meths:
